@@ -58,6 +58,12 @@ public:
     std::unique_ptr<RefChain> ref;
     int64_t now{0};
     std::set<int> manual_invalid;          //!< model of InvalidateBlock/ResetBlockFailureFlags
+    //! Roots of subtrees whose failure marks are left undecided: reconsiderblock(B) clears B, its ancestors and its descendants;
+    //! branches that fork off the path between an invalidated ancestor X and B keep whatever mark they had. The property says
+    //! nothing about them, so blocks under these roots are neither required nor forbidden as tip.
+    std::set<int> manual_maybe;
+    bool UnderManualMaybe(int idx) const;
+    void ModelReconsider(int b);
     std::vector<char> delivered;           //!< per ref block: full block given to the node at least once
     std::vector<char> header_given;
     uint64_t cb_nonce{0};
